@@ -28,7 +28,10 @@ Lemma serve_kinv li lo s e k : s <= 1 -> (d_active (e_dm e) = true -> sinv (e_dm
   kinv li lo (e_dm e) (e_mem_in e) (e_mem_out e) (e_pend_in e) (e_pend_out e) ->
   let e' := serve s e k in
   kinv li lo (e_dm e') (e_mem_in e') (e_mem_out e') (e_pend_in e') (e_pend_out e') /\
-  (d_active (e_dm e) = true -> pick (d_sside (e_dm e)) (e_mem_in e') (e_mem_out e') = pick (d_sside (e_dm e)) (e_mem_in e) (e_mem_out e)) /\
+  (d_active (e_dm e) = true -> forall a0 n0,
+     v_saddr (d_req (e_dm e)) <= a0 -> a0 + n0 <= v_saddr (d_req (e_dm e)) + v_size (d_req (e_dm e)) ->
+     mem_read (pick (d_sside (e_dm e)) (e_mem_in e') (e_mem_out e')) a0 n0 =
+     mem_read (pick (d_sside (e_dm e)) (e_mem_in e) (e_mem_out e)) a0 n0) /\
   ctl (e_dm e') = ctl (e_dm e) /\ sview (e_dm e') = sview (e_dm e) /\ g_writes (e_dm e') = g_writes (e_dm e) /\
   d_gin (e_dm e') = d_gin (e_dm e) /\ d_gout (e_dm e') = d_gout (e_dm e).
 Proof.
@@ -36,10 +39,11 @@ Proof.
   set (mi := e_mem_in e) in *. set (mo := e_mem_out e) in *. set (pi := e_pend_in e) in *. set (po := e_pend_out e) in *.
   assert (Same : forall e0, e0 = e ->
             kinv li lo (e_dm e0) (e_mem_in e0) (e_mem_out e0) (e_pend_in e0) (e_pend_out e0) /\
-            (d_active d = true -> pick (d_sside d) (e_mem_in e0) (e_mem_out e0) = pick (d_sside d) mi mo) /\
+            (d_active d = true -> forall a0 n0, v_saddr (d_req d) <= a0 -> a0 + n0 <= v_saddr (d_req d) + v_size (d_req d) ->
+               mem_read (pick (d_sside d) (e_mem_in e0) (e_mem_out e0)) a0 n0 = mem_read (pick (d_sside d) mi mo) a0 n0) /\
             ctl (e_dm e0) = ctl d /\ sview (e_dm e0) = sview d /\ g_writes (e_dm e0) = g_writes d /\
             d_gin (e_dm e0) = d_gin d /\ d_gout (e_dm e0) = d_gout d).
-  { intros e0 ->. split; [exact K|split; [intros _; reflexivity|repeat split]]. }
+  { intros e0 ->. split; [exact K|split; [intros _ a0 n0 _ _; reflexivity|repeat split]]. }
   unfold serve. cbv zeta. fold d mi mo pi po.
   change (if s =? 0 then pi else po) with (pick s pi po). change (if s =? 0 then mi else mo) with (pick s mi mo).
   change (if s =? 0 then d_inside d else d_outside d) with (port_of d s).
@@ -97,87 +101,100 @@ Proof.
         apply in_or_app. right. apply (nth_error_In _ _ Nk). }
       assert (fst mm = mi /\ snd mm = mo) as [-> ->].
       { unfold mm, setp. rewrite Hm. unfold mem, pick. destruct (s =? 0); split; reflexivity. }
-      split; [|split; [discriminate|repeat split]].
+      split; [|split; [intro; discriminate|repeat split]].
       constructor; [exact U'|exact Li|exact Lo|cbn; rewrite Act; discriminate| |exact T].
       intros _ s' Hs' id a x Hin. apply (NW s' Hs' id a x). apply Hflight; assumption. }
   pose proof (A eq_refl) as C. pose proof (HS eq_refl) as S.
-  destruct C as [Hss Hds Hne Fs Fd R B W].
+  destruct C as [Hss Hds Sep Nw Fs Fd R B W].
   destruct S as [gs gd ms md ws wd sal sside [rd1 [rd2 rd3]] [wr1 [wr2 wr3]] bg bo ch pr pn].
-  destruct R as [R1 [R2 R3]]. destruct W as [W1 W2].
-  destruct (N.eq_dec s (d_sside d)) as [Es|Es].
-  - (* the source memory answers: it can only be a read *)
-    subst s. fold p pend mem in R1, R2, R3.
-    destruct rq as [id a n|id a x]; [|exfalso; apply (R3 id a x); apply in_or_app; right; apply (nth_error_In _ _ Nk)].
+  destruct R as [R1 R2]. destruct W as [W1 W2].
+  set (v := d_req d) in *. set (sg := d_sg d) in *. set (dg := d_dg d) in *.
+  set (wr := d_next_write d - v_daddr v) in *. set (rd := d_next_read d - v_saddr v) in *.
+  set (src := pick (d_sside d) mi mo) in *. set (dst := pick (d_dside d) mi mo) in *.
+  (* incoming buffers: only the response was added, on side s *)
+  assert (Hpin : forall s' r, s' <= 1 -> In r (p_in (port_of d' s')) -> In r (p_in (port_of d s')) \/ (s' = s /\ r = rsp)).
+  { intros s' r Hs' Hr. rewrite (Pin' s' Hs') in Hr. destruct (s =? s') eqn:E; [|left; exact Hr].
+    assert (s' = s) by lia. subst s'. cbn [p_in] in Hr. fold p. apply in_app_or in Hr. destruct Hr as [H|[H|[]]]; [left; exact H|right; split; [reflexivity|symmetry; exact H]]. }
+  assert (Hnw' : forall s', s' <= 1 -> forall id a x, In (MWrite id a x) (p_out (port_of d' s') ++ pick s' (fst pp) (snd pp)) -> s' = d_dside d).
+  { intros s' Hs' id a x Hin. apply (Nw s' Hs' id a x). apply Hflight; assumption. }
+  destruct rq as [id a n|id a x].
+  - (* a read is answered: the memories are unchanged *)
     assert (fst mm = mi /\ snd mm = mo) as [-> ->].
-    { unfold mm, setp, mem'. unfold mem, pick. destruct (d_sside d =? 0); split; reflexivity. }
-    split; [|split; [reflexivity|repeat split]].
+    { unfold mm, setp, mem'. unfold mem, pick. destruct (s =? 0); split; reflexivity. }
+    split; [|split; [intros _ a0 n0 _ _; reflexivity|repeat split]].
     constructor; [exact U'|exact Li|exact Lo| |cbn; rewrite Act; discriminate|exact T].
     intros _. constructor; try assumption.
-    + change (d_sside d') with (d_sside d). rewrite (Pin' _ Hss), (Ppend _ Hss), N.eqb_refl. cbn [p_out p_in].
-      change (d_pread d') with (d_pread d). change (d_sg d') with (d_sg d). split; [|split].
-      * intros id0 a0 n0 Hin. apply (R1 id0 a0 n0). apply in_app_or in Hin. apply in_or_app.
-        destruct Hin as [H|H]; [left; exact H|right; apply (In_remove_nth _ _ _ H)].
-      * intros id0 x0 Hin a0 Ha0. apply in_app_or in Hin. destruct Hin as [H|[H|[]]]; [apply (R2 id0 x0 H a0 Ha0)|].
-        inversion H; subst id0 x0.
+    + change (d_sside d') with (d_sside d). fold src. split.
+      * intros id0 a0 n0 Hin. apply (R1 id0 a0 n0). apply (Hflight _ _ Hss Hin).
+      * intros id0 x0 Hin a0 Ha0. destruct (Hpin _ _ Hss Hin) as [H|[Hs' H]]; [apply (R2 id0 x0 H a0 Ha0)|].
+        unfold rsp in H. inversion H; subst id0 x0. subst s. fold pend in R1.
         destruct (R1 id a n ltac:(apply in_or_app; right; apply (nth_error_In _ _ Nk)) a0 Ha0) as [-> ->]. reflexivity.
-      * intros id0 a0 x0 Hin. apply (R3 id0 a0 x0). apply in_app_or in Hin. apply in_or_app.
-        destruct Hin as [H|H]; [left; exact H|right; apply (In_remove_nth _ _ _ H)].
-    + change (d_dside d') with (d_dside d). change (d_sside d') with (d_sside d).
-      rewrite (Pin' _ Hds), (Ppend _ Hds). destruct (d_sside d =? d_dside d) eqn:E; [lia|]. split; assumption.
-  - (* the destination memory answers *)
-    assert (s = d_dside d) by (clear - Hs Hss Hds Hne Es; lia). subst s. fold p pend in W1, W2.
-    assert (Msrc : pick (d_sside d) (fst mm) (snd mm) = pick (d_sside d) mi mo).
-    { rewrite (Pmem _ Hss). destruct (d_dside d =? d_sside d) eqn:E; [lia|reflexivity]. }
-    assert (Mdst : pick (d_dside d) (fst mm) (snd mm) = mem') by (rewrite (Pmem _ Hds), N.eqb_refl; reflexivity).
-    assert (Rsame : RB (port_of d' (d_sside d)) (pick (d_sside d) (fst pp) (snd pp)) (d_pread d) (pick (d_sside d) mi mo) (d_sg d)).
-    { rewrite (Pin' _ Hss), (Ppend _ Hss). destruct (d_dside d =? d_sside d) eqn:E; [lia|]. split; [|split]; assumption. }
-    destruct rq as [id a n|id a x].
-    + (* a stale read: the memory is unchanged *)
-      assert (fst mm = mi /\ snd mm = mo) as [-> ->].
-      { unfold mm, setp, mem'. unfold mem, pick. destruct (d_dside d =? 0); split; reflexivity. }
-      split; [|split; [reflexivity|repeat split]].
-      constructor; [exact U'|exact Li|exact Lo| |cbn; rewrite Act; discriminate|exact T].
-      intros _. constructor; try assumption.
-      change (d_dside d') with (d_dside d). split.
+    + change (d_dside d') with (d_dside d). change (d_sside d') with (d_sside d). split.
       * intros id0 a0 x0 Hin. apply (W1 id0 a0 x0). apply (Hflight _ _ Hds Hin).
       * intros o Ho1 Ho2. destruct (W2 o Ho1 Ho2) as [L|[id0 Hin]]; [left; exact L|right]. exists id0.
-        apply Hkeep; [discriminate|exact Hin].
-    + (* a write is applied to the destination memory *)
-      destruct (W1 id a x ltac:(apply in_or_app; right; apply (nth_error_In _ _ Nk))) as [_ [o [-> [O2 [O3 ->]]]]].
-      set (v := d_req d) in *. set (dg := d_dg d) in *. set (wr := d_next_write d - v_daddr v) in *.
-      set (src := pick (d_sside d) mi mo) in *. set (x := mem_read src (v_saddr v + o) dg).
-      destruct (mult_of dg o gd O2) as [ko Hko]. destruct (mult_of dg wr gd wr2) as [kw Hkw].
-      assert (Hkk : ko < kw) by (apply (N.mul_lt_mono_pos_r dg); [exact gd|rewrite <- Hko, <- Hkw; exact O3]).
-      assert (Hodg : o + dg <= wr).
-      { rewrite Hko, Hkw. replace (ko * dg + dg) with ((ko + 1) * dg) by (clear; lia). apply N.mul_le_mono_r. clear - Hkk. lia. }
-      assert (Hwsz : wr <= v_size v) by (clear - wr3 rd3; lia).
-      assert (Lx : length x = N.to_nat dg) by (apply mem_read_length; clear - Hodg Hwsz Fs; lia).
-      assert (Fit : v_daddr v + o + N.of_nat (length x) <= N.of_nat (length mem)) by (rewrite Lx, N2Nat.id; unfold mem; clear - Hodg Hwsz Fd; lia).
-      assert (Xpos : 0 < N.of_nat (length x)) by (rewrite Lx, N2Nat.id; exact gd).
-      assert (Lm : length mem' = length mem) by (apply mem_write_length).
-      destruct (setp_length (d_dside d) mem' mi mo li lo Li Lo Lm) as [Li' Lo'].
-      split; [|split; [intros _; exact Msrc|repeat split]].
-      constructor; [exact U'|exact Li'|exact Lo'| |cbn; rewrite Act; discriminate|exact T].
-      intros _. constructor; try assumption.
-      * change (d_sside d') with (d_sside d). rewrite Msrc. exact Fs.
-      * change (d_dside d') with (d_dside d). rewrite Mdst, Lm. exact Fd.
-      * change (d_sside d') with (d_sside d). rewrite Msrc. exact Rsame.
-      * change (d_sside d') with (d_sside d). rewrite Msrc. exact B.
-      * change (d_dside d') with (d_dside d). change (d_sside d') with (d_sside d). rewrite Msrc, Mdst.
-        change (d_pwrite d') with (d_pwrite d). change (d_next_write d') with (d_next_write d). change (d_req d') with v. change (d_dg d') with dg.
-        fold wr src. split.
-        -- intros id0 a0 x0 Hin. apply (W1 id0 a0 x0). apply (Hflight _ _ Hds Hin).
-        -- intros o' Ho1 Ho2. destruct (N.eq_dec o' o) as [->|Hno].
-           ++ left. unfold mem'. fold x. rewrite <- (N2Nat.id dg), <- Lx. apply mem_read_write_same; assumption.
-           ++ destruct (mult_of dg o' gd Ho1) as [ko' Hko'].
-              assert (Hdis : v_daddr v + o' + dg <= v_daddr v + o \/ v_daddr v + o + N.of_nat (length x) <= v_daddr v + o').
-              { rewrite Lx, N2Nat.id, Hko, Hko'. assert (Hk : ko' <> ko) by (intro; subst; apply Hno; congruence).
-                destruct (N.lt_total ko' ko) as [Hl|[He|Hg]]; [left|congruence|right].
-                - replace (v_daddr v + ko' * dg + dg) with (v_daddr v + (ko' + 1) * dg) by (clear; lia).
-                  apply N.add_le_mono_l, N.mul_le_mono_r. clear - Hl. lia.
-                - replace (v_daddr v + ko * dg + dg) with (v_daddr v + (ko + 1) * dg) by (clear; lia).
-                  apply N.add_le_mono_l, N.mul_le_mono_r. clear - Hg. lia. }
-              destruct (W2 o' Ho1 Ho2) as [L|[id0 Hin]].
-              ** left. unfold mem'. rewrite mem_read_write_disjoint; [exact L|exact Fit|exact Xpos|exact Hdis].
-              ** right. exists id0. apply Hkeep; [|exact Hin]. intro Heq. inversion Heq. clear - H1 Hno. lia.
+        destruct (N.eq_dec s (d_dside d)) as [->|Hn].
+        -- apply Hkeep; [discriminate|exact Hin].
+        -- rewrite (Pin' _ Hds), (Ppend _ Hds). destruct (s =? d_dside d) eqn:E; [lia|exact Hin].
+  - (* a write is applied: it goes to the destination range of the destination side *)
+    assert (s = d_dside d) by (apply (Nw s Hs id a x); apply in_or_app; right; apply (nth_error_In _ _ Nk)). subst s.
+    fold p pend in W1, W2.
+    destruct (W1 id a x ltac:(apply in_or_app; right; apply (nth_error_In _ _ Nk))) as [_ [o [-> [O2 [O3 ->]]]]].
+    set (x := mem_read src (v_saddr v + o) dg) in *.
+    assert (Hstep : forall o0, o0 mod dg = 0 -> o0 < wr -> o0 + dg <= wr).
+    { intros o0 H1 H2. destruct (mult_of dg o0 gd H1) as [k0 Hk0]. destruct (mult_of dg wr gd wr2) as [kw Hkw].
+      assert (Hkk : k0 < kw) by (apply (N.mul_lt_mono_pos_r dg); [exact gd|rewrite <- Hk0, <- Hkw; exact H2]).
+      rewrite Hk0, Hkw. replace (k0 * dg + dg) with ((k0 + 1) * dg) by (clear; lia). apply N.mul_le_mono_r. clear - Hkk. lia. }
+    pose proof (Hstep o O2 O3) as Hodg.
+    assert (Hwsz : wr <= v_size v) by (clear - wr3 rd3; lia).
+    assert (Lx : length x = N.to_nat dg) by (apply mem_read_length; clear - Hodg Hwsz Fs; lia).
+    assert (Fit : v_daddr v + o + N.of_nat (length x) <= N.of_nat (length mem)) by (rewrite Lx, N2Nat.id; change mem with dst; clear - Hodg Hwsz Fd; lia).
+    assert (Xpos : 0 < N.of_nat (length x)) by (rewrite Lx, N2Nat.id; exact gd).
+    assert (Lm : length mem' = length mem) by (apply mem_write_length).
+    destruct (setp_length (d_dside d) mem' mi mo li lo Li Lo Lm) as [Li' Lo'].
+    assert (Mdst : pick (d_dside d) (fst mm) (snd mm) = mem') by (rewrite (Pmem _ Hds), N.eqb_refl; reflexivity).
+    (* reads inside the source range do not see the write *)
+    assert (Stable : forall a0 n0, v_saddr v <= a0 -> a0 + n0 <= v_saddr v + v_size v ->
+              mem_read (pick (d_sside d) (fst mm) (snd mm)) a0 n0 = mem_read src a0 n0).
+    { intros a0 n0 H1 H2. rewrite (Pmem _ Hss). destruct (d_dside d =? d_sside d) eqn:E; [|reflexivity].
+      assert (Heq : d_sside d = d_dside d) by lia.
+      assert (Hsm : src = mem) by (unfold src, mem; rewrite Heq; reflexivity). unfold mem'. rewrite Hsm.
+      apply mem_read_write_disjoint; [exact Fit|exact Xpos|].
+      destruct Sep as [Sep|[Sep|Sep]]; [congruence| |]; rewrite Lx, N2Nat.id; [left|right]; clear - Sep H1 H2 Hodg Hwsz; lia. }
+    assert (Lsrc : length (pick (d_sside d) (fst mm) (snd mm)) = length src).
+    { unfold src. rewrite !pick_length. unfold mm. rewrite Li', Lo', Li, Lo. reflexivity. }
+    split; [|split; [intros _; exact Stable|repeat split]].
+    constructor; [exact U'|exact Li'|exact Lo'| |cbn; rewrite Act; discriminate|exact T].
+    intros _. constructor; try assumption.
+    + change (d_sside d') with (d_sside d). rewrite Lsrc. exact Fs.
+    + change (d_dside d') with (d_dside d). rewrite Mdst, Lm. exact Fd.
+    + change (d_sside d') with (d_sside d). split.
+      * intros id0 a0 n0 Hin. apply (R1 id0 a0 n0). apply (Hflight _ _ Hss Hin).
+      * intros id0 x0 Hin a0 Ha0. destruct (Hpin _ _ Hss Hin) as [H|[_ H]]; [|unfold rsp in H; discriminate].
+        rewrite (R2 id0 x0 H a0 Ha0). symmetry.
+        destruct (pr id0 a0 (aget_In _ _ _ Ha0)) as [P1 [P2 [P3 _]]]. fold v sg rd in P1, P2, P3.
+        apply Stable; [exact P1|clear - P1 P3 rd3; lia].
+    + change (d_sside d') with (d_sside d). intros i c Hi Hv. rewrite (B i c Hi Hv). symmetry.
+      pose proof (ch i c Hi Hv) as Bi. fold sg rd in Bi.
+      apply Stable; [clear; lia|clear - Bi rd3; lia].
+    + change (d_dside d') with (d_dside d). change (d_sside d') with (d_sside d). rewrite Mdst.
+      change (d_pwrite d') with (d_pwrite d). change (d_next_write d') with (d_next_write d). change (d_req d') with v. change (d_dg d') with dg.
+      fold wr. split.
+      * intros id0 a0 x0 Hin. destruct (W1 id0 a0 x0 (Hflight _ _ Hds Hin)) as [E1 [o0 [Q1 [Q2 [Q3 Q4]]]]].
+        split; [exact E1|]. exists o0. split; [exact Q1|split; [exact Q2|split; [exact Q3|]]].
+        rewrite Q4. symmetry. pose proof (Hstep o0 Q2 Q3). apply Stable; [clear; lia|clear - H Hwsz; lia].
+      * intros o' Ho1 Ho2. pose proof (Hstep o' Ho1 Ho2) as Ho3.
+        rewrite (Stable (v_saddr v + o') dg ltac:(clear; lia) ltac:(clear - Ho3 Hwsz; lia)).
+        destruct (N.eq_dec o' o) as [->|Hno].
+        -- left. unfold mem'. fold x. rewrite <- (N2Nat.id dg), <- Lx. apply mem_read_write_same; assumption.
+        -- destruct (mult_of dg o' gd Ho1) as [ko' Hko']. destruct (mult_of dg o gd O2) as [ko Hko].
+           assert (Hdis : v_daddr v + o' + dg <= v_daddr v + o \/ v_daddr v + o + N.of_nat (length x) <= v_daddr v + o').
+           { rewrite Lx, N2Nat.id, Hko, Hko'. assert (Hk : ko' <> ko) by (intro; subst; apply Hno; congruence).
+             destruct (N.lt_total ko' ko) as [Hl|[He|Hg]]; [left|congruence|right].
+             - replace (v_daddr v + ko' * dg + dg) with (v_daddr v + (ko' + 1) * dg) by (clear; lia).
+               apply N.add_le_mono_l, N.mul_le_mono_r. clear - Hl. lia.
+             - replace (v_daddr v + ko * dg + dg) with (v_daddr v + (ko + 1) * dg) by (clear; lia).
+               apply N.add_le_mono_l, N.mul_le_mono_r. clear - Hg. lia. }
+           destruct (W2 o' Ho1 Ho2) as [L|[id0 Hin]].
+           ++ left. unfold mem'. rewrite mem_read_write_disjoint; [exact L|exact Fit|exact Xpos|exact Hdis].
+           ++ right. exists id0. apply Hkeep; [|exact Hin]. intro Heq. inversion Heq. clear - H1 Hno. lia.
 Qed.
